@@ -56,6 +56,7 @@ class Model(object):
     for t in self.tables.values():
       if t['id'] in snap:
         t['rows'] = list(snap[t['id']][0])
+    self.groupby_sources = set(c['summarySourceCol'] for c in self.colbyref.values() if c['summarySourceCol'])
     self.user_tables = [t for t in self.tables.values() if not t['summary']]
     self.summary_tables = [t for t in self.tables.values() if t['summary']]
     self.views = sorted(rows_of(snap, '_grist_Views'))
@@ -78,6 +79,12 @@ class Model(object):
 
 def vis(c):
   return c['id'] not in ('manualSort', 'group') and not c['id'].startswith('gristHelper_')
+
+
+def groupable(c):
+  """Columns offered as summary group-by: not formula columns of type Any (they may hold records,
+  record sets, lists or errors, for which the summary properties say nothing)."""
+  return vis(c) and not (c['isFormula'] and c['type'] == 'Any')
 
 
 def datacols(t):
@@ -178,8 +185,8 @@ class Gen(object):
       return r.choice([0.5, 1.5, 2.5, 10, 1])
     return None
 
-  def formula(self, m, t):
-    return self.fgen.formula(m, t)
+  def formula(self, m, t, self_col=None):
+    return self.fgen.formula(m, t, self_col)
 
   # -------------------------------------------------------------------------------- bundles
   def bundle(self, m):
@@ -422,6 +429,12 @@ class Gen(object):
     t, c = self._col(m, summary_ok=True)
     if c is None:
       return None
+    if c['ref'] in m.groupby_sources:
+      # A group-by source column only moves between scalar types (how lists held in a column of a
+      # non-list type should group is not something the summary properties define).
+      if c['type'].split(':')[0] in ('ChoiceList', 'RefList'):
+        return None
+      return ['ModifyColumn', t['id'], c['id'], {'type': r.choice(['Int', 'Numeric', 'Text', 'Bool', 'Choice', 'Date'])}]
     if c['isFormula']:
       return ['ModifyColumn', t['id'], c['id'], {'type': r.choice(['Any', 'Int', 'Numeric', 'Text'])}]
     return ['ModifyColumn', t['id'], c['id'], {'type': self.pick_type(m)}]
@@ -430,13 +443,13 @@ class Gen(object):
     t, c = self._col(m, lambda c: c['isFormula'], summary_ok=True)
     if c is None:
       return None
-    return ['ModifyColumn', t['id'], c['id'], {'formula': self.formula(m, t)}]
+    return ['ModifyColumn', t['id'], c['id'], {'formula': self.formula(m, t, c['id'])}]
 
   def k_to_formula(self, m):
     t, c = self._col(m, lambda c: not c['isFormula'] and not c['reverseCol'])
     if c is None:
       return None
-    info = {'isFormula': True, 'formula': self.formula(m, t)}
+    info = {'isFormula': True, 'formula': self.formula(m, t, c['id'])}
     if self.r.random() < 0.4:
       info['type'] = self.r.choice(['Any', 'Int', 'Numeric', 'Text'])
     return ['ModifyColumn', t['id'], c['id'], info]
@@ -491,14 +504,16 @@ class Gen(object):
       if r.random() < 0.4:
         vals['untieColIdFromLabel'] = r.random() < 0.5
     elif k < 0.65:
+      if c['ref'] in m.groupby_sources:
+        return None
       vals = {'type': 'Any' if c['isFormula'] else self.pick_type(m)}
     elif k < 0.8:
       if c['isFormula']:
-        vals = {'formula': self.formula(m, t)}
+        vals = {'formula': self.formula(m, t, c['id'])}
       elif c['reverseCol']:
         return None
       else:
-        vals = {'isFormula': True, 'formula': self.formula(m, t)}
+        vals = {'isFormula': True, 'formula': self.formula(m, t, c['id'])}
     elif k < 0.9:
       vals = {'description': r.choice(['', 'd1', 'd2'])}
     else:
@@ -614,7 +629,7 @@ class Gen(object):
     t = self._table(m)
     if t is None:
       return None
-    cols = [c for c in t['cols'] if vis(c)]
+    cols = [c for c in t['cols'] if groupable(c)]
     gb = [c['ref'] for c in r.sample(cols, min(len(cols), r.randint(0, 2)))]
     view = r.choice(m.views + [0]) if m.views else 0
     return ['CreateViewSection', t['ref'], view, 'record', gb, None]
@@ -633,7 +648,7 @@ class Gen(object):
     src = m.byref.get(st['summary']) if st else None
     if not src:
       return None
-    cols = [c for c in src['cols'] if vis(c)]
+    cols = [c for c in src['cols'] if groupable(c)]
     gb = [c['ref'] for c in r.sample(cols, min(len(cols), r.randint(0, 2)))]
     return ['UpdateSummaryViewSection', s['ref'], gb]
 
